@@ -339,6 +339,27 @@ def prove_files(dirpath, files, hdr=HDR, max_fail=12, deps_extra=(), extra=(), t
     DEFERRED[:] = deferred
     return nob, nob - len(failures), failures, assumptions
 
+LIB_THEOREMS = {
+    'C13': ['IntSpec.sel_lt_min', 'IntSpec.sel_gt_max', 'IntSpec.clamp_sel_spec', 'IntSpec.minel_lmin', 'IntSpec.maxel_lmax', 'IntSpec.argmin3_spec', 'IntSpec.argmax4_spec', 'IntSpec.argmin2_spec'],
+    'C17': ['AccessHist.history_refines', 'AccessHist.write_then_read'],
+    'C04': ['QuatAlg.rot_compose', 'QuatAlg.rot_length_unit', 'QuatAlg.rot_neg', 'QuatAlg.rot_undo_unit', 'QuatAlg.norm_hprod'],
+    'C09': ['RotAlg.rod_det', 'RotAlg.rod_col0_unit', 'RotAlg.rod_col01_orth', 'RotAlg.rod_axis', 'RotAlg.quat_mat_01', 'RotAlg.quat_mat_00', 'AlgR.Rlit32_half', 'AlgR.R_sin_opp_mul'],
+    'C11': ['ProjAlg.rh_gl_near', 'ProjAlg.rh_gl_far', 'ProjAlg.lh_near', 'ProjAlg.inf_rev_lh_depth', 'ProjAlg.fov_edge_x', 'ProjAlg.ortho_x_left', 'ProjAlg.ortho_rh_gl_far'],
+    'C03': ['AlgR.R_field', 'AlgR.Rlit32_1', 'AlgR.Rlit64_m2'],
+    'C10': ['AlgR.Rlit32_2', 'AlgR.R_cos_opp'],
+    'C18': ['Sem.IntStd_IEEE', 'Sem.LitStd_IEEE'], 'C08': ['Sem.IntStd_IEEE', 'Sem.LitStd_IEEE'], 'C15': ['Sem.IntStd_IEEE'], 'C20': ['Sem.IntStd_IEEE', 'Sem.LitStd_IEEE'], 'C01': ['Sem.IntStd_IEEE', 'Sem.LitStd_IEEE'],
+}
+def lib_assumptions(pid):
+    """Print Assumptions of the hand-written library theorems a property relies on (checked against the allow-list like the generated ones)"""
+    thms = LIB_THEOREMS.get(pid, [])
+    if not thms: return {}
+    d = BUILD + '/cases/lib'; os.makedirs(d, exist_ok=True); p = '%s/%s_lib.v' % (d, pid)
+    mods = sorted(set(t.split('.')[0] for t in thms))
+    open(p, 'w').write('From Glam Require Import %s.\n' % ' '.join(mods) + ''.join('Print Assumptions %s.\n' % t for t in thms))
+    rc, so, se = coqc(p, timeout=300)
+    if rc != 0: return {'library theorems': 'FAILED TO CHECK: ' + (se or so)[-300:]}
+    return {'library theorems (%s)' % ', '.join(thms): so.strip()}
+
 ALLOWED_AXIOMS = {
     'ClassicalDedekindReals.sig_forall_dec', 'ClassicalDedekindReals.sig_not_dec', 'FunctionalExtensionality.functional_extensionality_dep', 'Classical_Prop.classic',
 }
@@ -346,7 +367,7 @@ def check_assumptions(assumptions):
     """returns (set of axioms seen, list of disallowed)"""
     seen = set(); bad = []
     for b, a in assumptions.items():
-        if 'Closed under the global context' in a or a in ('(cached)', ''): continue
+        if a.startswith('FAILED TO CHECK'): bad.append((b, a[:200])); continue
         for m in re.finditer(r'^([A-Za-z_][\w\.]*) :', a, re.M):
             ax = m.group(1); seen.add(ax)
             if ax not in ALLOWED_AXIOMS: bad.append((b, ax))
